@@ -10,6 +10,7 @@ use rxrust::prelude::*;
 use crate::pipe::{build_local, build_threads, LCtx, TCtx};
 use crate::sexp::SExp;
 use crate::val::{Notif, Val};
+use crate::locktrace;
 use crate::vtime::{self, Exec, Queue};
 use crate::{Case, Out};
 
@@ -32,12 +33,15 @@ impl Observer<Val, i64> for Probe {
 struct ProbeT(Arc<Mutex<Vec<Notif>>>);
 impl Observer<Val, i64> for ProbeT {
   fn next(&mut self, v: Val) {
+    locktrace::on_cb(0);
     self.0.lock().unwrap().push(Notif::Next(v));
   }
   fn error(self, e: i64) {
+    locktrace::on_cb(0);
     self.0.lock().unwrap().push(Notif::Error(e));
   }
   fn complete(self) {
+    locktrace::on_cb(0);
     self.0.lock().unwrap().push(Notif::Complete);
   }
   fn is_finished(&self) -> bool {
@@ -81,11 +85,16 @@ fn time_event(ev: &[SExp], exec: &Exec) -> bool {
 }
 
 fn suffix(case: &Case, exec: &Exec) -> String {
-  if case.suite == "time" {
+  let mut s = if case.suite == "time" {
     format!(" live={} tm={} t={}", exec.live().len(), vtime::timers_created(), vtime::now())
   } else {
     String::new()
+  };
+  if locktrace::is_on() {
+    // field `locktrace`: the lock-level trace of the event (hook H2), see locktrace.rs
+    s.push_str(&format!(" L={}", locktrace::take()));
   }
+  s
 }
 
 fn run_local(case: &Case, out: &mut Out) {
@@ -151,6 +160,11 @@ fn run_threads(case: &Case, out: &mut Out) {
   vtime::reset();
   let ctx = TCtx::default();
   let exec = Exec::new(Queue::Shared(ctx.sched.clone()));
+  if case.has("locktrace") {
+    locktrace::start();
+  } else {
+    locktrace::stop();
+  }
   let log = Arc::new(Mutex::new(Vec::<Notif>::new()));
   let pipe_expr: &SExp = &case.field("pipe")[0];
   let pipeline = build_threads(pipe_expr, &ctx);
